@@ -50,6 +50,7 @@ func c12Positions() []pposition {
 		{"format(\"z%d z z z z z z z z z z z z z\", \"TEST\", 40)", "format(\"z%d z z z z z z z z z z z z z\", \"TEST\", 40)", false},
 		{"custom\"a%d\"\n\"b\"", "custom\"a%d\"\n\"b\"", false},
 		{"\"x%d$\"", "\"x%d$\"", false},
+		{"\"w%d w w w w w w w w\\pw w w w w w\"", "\"w%d w w w w w w w w\\pw w w w w w\"", false}, // a plain literal that format() would change
 		{"format(\"aaa bbb ccc ddd eee\", \"TEST\", 70)", "format(\"aaa bbb ccc ddd eee\", \"TEST\", 70)", false},
 		{"format(\"aaa bbb ccc ddd eee\", \"TEST\", 70, cursorOverlapWidth=10)", "format(\"aaa bbb ccc ddd eee\", \"TEST\", 70, cursorOverlapWidth=10)", false},
 		{"format(\"aaa bbb ccc ddd eee\", \"TEST\", 70, numLines=1)", "format(\"aaa bbb ccc ddd eee\", \"TEST\", 70, numLines=1)", false},
